@@ -34,7 +34,8 @@ From RU Require Import Base.Prelude Base.Utf8 Base.Utf8Facts Model.AsciiSet Gen.
   Proofs.ListN Proofs.C02_Enc Proofs.C02_Parts Proofs.C02_Opaque Proofs.C02_Path Proofs.C02_PathL1 Proofs.C02_Reach
   Proofs.C03_WF Proofs.C06_List Proofs.C06_WFI Proofs.C06_Tail
   Proofs.C08_Input Proofs.C08_Simple Proofs.C08_Contain Proofs.C08_NoAuth Proofs.C08_Absolute Proofs.C08_Relative Proofs.C08_RelEval
-  Proofs.C08_RelPath Proofs.C08_RelJoin Proofs.C08_RelMr Proofs.C08_RelLaw Proofs.C08_RelCanon.
+  Proofs.C08_RelPath Proofs.C08_RelJoin Proofs.C08_RelMr Proofs.C08_RelLaw Proofs.C08_RelCanon Proofs.C08_RelNoAuth.
+From RU Require Properties.C02.
 Open Scope N_scope.
 Open Scope list_scope.
 
@@ -283,6 +284,46 @@ Check C08_relative_canon : forall dbg hp hpo hd b t r,
   make_relative dbg b t = Some (Some r) ->
   parse_url dbg hp hpo hd None (Some b) r = POk t.
 Print Assumptions C08_relative_canon.
+
+(* ... and C08_relative_statement ITSELF (parse results, no canonical-form premise) for the class where C02 proved
+   the canonical form of every parse result: non-special URLs without authority, "scheme:/path"
+   (Properties.C02.noauth_input decides the class on the input text) *)
+Theorem C08_relative_noauth : forall dbg hp hpo hd schb bsegs blast bq bf scht tsegs tlast tq tf r,
+  C02_Path.noauth_ok schb bsegs blast bq bf -> C02_Path.noauth_ok scht tsegs tlast tq tf ->
+  mr_ok (noauth_url schb (path_text bsegs blast) bq bf) (noauth_url scht (path_text tsegs tlast) tq tf) = true ->
+  make_relative dbg (noauth_url schb (path_text bsegs blast) bq bf) (noauth_url scht (path_text tsegs tlast) tq tf)
+  = Some (Some r) ->
+  join dbg hp hpo hd (noauth_url schb (path_text bsegs blast) bq bf) r
+  = POk (noauth_url scht (path_text tsegs tlast) tq tf).
+Proof. exact relative_noauth. Qed.
+Print Assumptions C08_relative_noauth.
+
+Theorem C08_relative_noauth_parsed : forall dbg hp hpo hd bi ti b t r,
+  usv_list bi -> usv_list ti ->
+  Properties.C02.noauth_input bi = true -> Properties.C02.noauth_input ti = true ->
+  parse_url dbg hp hpo hd None None bi = POk b -> parse_url dbg hp hpo hd None None ti = POk t ->
+  mr_ok b t = true -> make_relative dbg b t = Some (Some r) ->
+  join dbg hp hpo hd b r = POk t.
+Proof.
+  intros dbg hp hpo hd bi ti b t r Hub Hut Cb Ct Pb Pt Hok Hmr.
+  destruct (Properties.C02.noauth_input_inv bi Cb) as (schb & remb & remb' & B1 & B2 & B3 & B4).
+  destruct (Properties.C02.noauth_input_inv ti Ct) as (scht & remt & remt' & T1 & T2 & T3 & T4).
+  exact (relative_noauth_parsed dbg hp hpo hd bi ti schb remb remb' scht remt remt' b t r
+           Hub Hut B1 B2 B3 B4 T1 T2 T3 T4 Pb Pt Hok Hmr).
+Qed.
+Check C08_relative_noauth_parsed : forall dbg hp hpo hd bi ti b t r,
+  usv_list bi -> usv_list ti ->
+  Properties.C02.noauth_input bi = true -> Properties.C02.noauth_input ti = true ->
+  parse_url dbg hp hpo hd None None bi = POk b -> parse_url dbg hp hpo hd None None ti = POk t ->
+  mr_ok b t = true -> make_relative dbg b t = Some (Some r) ->
+  parse_url dbg hp hpo hd None (Some b) r = POk t.
+Print Assumptions C08_relative_noauth_parsed.
+Example C08_relative_noauth_inhabited :
+  Properties.C02.noauth_input (B "web+demo:/a/b/c?bq") = true /\ Properties.C02.noauth_input (B "web+demo:/a/d/e#f") = true
+  /\ mr_holds "web+demo:/a/b/c?bq" "web+demo:/a/d/e#f" "../d/e#f" = true
+  /\ Properties.C02.noauth_input (B "a:/x") = true /\ Properties.C02.noauth_input (B "a:/") = true
+  /\ mr_holds "a:/x" "a:/" "/" = true.
+Proof. vm_compute. repeat split. Qed.
 
 (* non-vacuity: pairs of parse results inside rel_canon (with the reference make_relative answers), and the
    explicit form of one pair *)
